@@ -60,10 +60,10 @@ RULE = ("cases = (facet ident|map|map2|swv, shape 1-3 d with lengths 1-9, chunki
 ASSUMPTIONS = ["NumPy 2.x np.pad / sliding_window_view define the expected values", "sync scheduler",
                "the stencil functions are harness code: pure, slicing based, window truncated at the block edge"]
 BUDGET = {"quick": 60, "thorough": 560}
-FLOORS = {"quick": {"evaluations": 2800, "distinct_nontrivial": 2200,
-                    "counters": {"ident_compared": 700, "map_compared": 1200, "swv_compared": 650, "rechunk_needed": 1300,
-                                 "norechunk_valueerror": 150, "asymmetric_depth": 150, "trim_false": 200,
-                                 "lazy_meta_checked": 2600, "blocks_checked": 180},
+FLOORS = {"quick": {"evaluations": 2300, "distinct_nontrivial": 1700,
+                    "counters": {"ident_compared": 560, "map_compared": 950, "swv_compared": 480, "rechunk_needed": 1000,
+                                 "norechunk_valueerror": 115, "asymmetric_depth": 115, "trim_false": 170,
+                                 "lazy_meta_checked": 2000, "blocks_checked": 140},
                     "max_skipped_fraction": 0.1},
           "thorough": {"evaluations": 45000, "distinct_nontrivial": 28000,
                        "counters": {"ident_compared": 9000, "map_compared": 17000, "swv_compared": 9000, "rechunk_needed": 18000,
@@ -108,7 +108,7 @@ def cases(tier, seed):
             yield {"space": "exhaustive", "kind": "swv", "shape": [5], "chunks": _chunks_desc(ch), "dtype": "int64",
                    "seed": 4, "window": w, "axis": 0, "auto": True}
     # ---- random part ------------------------------------------------------------------------------------
-    n = 5000 if tier == "quick" else 90000
+    n = 4000 if tier == "quick" else 90000
     for _ in range(n):
         kind = rng.choice(("ident", "ident", "map", "map", "map", "map2", "swv", "swv"))
         if kind == "swv":
